@@ -2,6 +2,7 @@ import Rg.Model.Preds
 import Rg.Spec.C02
 import Rg.Gen.FilterTables
 import Rg.Proofs.Preds
+import Rg.Props.C02Sink
 /-!
 # C02 — Where() predicates mean what the Go type system says they mean
 
